@@ -240,7 +240,7 @@ class Check:
     def info(self, rule, module, function, construct, node, why):
         return self.ob(rule, module, function, construct, INFO, node, why)
 
-    def borrow(self, other_pid: str, rule_ids: tuple[str, ...], as_rule: str) -> None:
+    def borrow(self, other_pid: str, rule_ids: tuple[str, ...], as_rule: str, functions: tuple[str, ...] | None = None) -> None:
         """Obligations of a sibling property's checker that this property also rests on (e.g. the function translator under every
         code generator) are decided by the sibling's rules and recorded here under `as_rule`, construct prefixed by their origin."""
         import importlib
@@ -255,7 +255,7 @@ class Check:
             failed = e  # what the sibling decided before it stopped is still taken over
         n = 0
         for o in other.obs:
-            if o.rule in rule_ids:
+            if o.rule in rule_ids and (functions is None or o.function in functions):
                 n += 1
                 self.obs.append(Ob(as_rule, o.module, o.function, f"{other_pid}/{o.rule} {o.construct}", o.verdict, o.line, o.why, o.witness))
                 self.functions_analysed.add(f"{o.module}:{o.function}")
